@@ -167,6 +167,22 @@ CHECKS["C14"] = dict(
     technique="Lean 4 post-condition chain for all draw lists + bit-level Float model correspondence with captured RNG draws + clause evaluation over seeds x trials",
     design="§7 C14")
 
+CHECKS["C03"] = dict(
+    text="Machine-checked (Lean 4, any ordered field): in every non-fixed cell the listed ratio of a module equals the sum over its "
+         "rectangles of areaOverlap / cell area (the clamp added by the repair never fires in exact arithmetic: a module's pairwise "
+         "disjoint rectangles cover no cell more than once); a module is listed iff its overlap is positive (all modules with "
+         "include-zero); ratios lie in [0,1]; a fixed module owns exactly its own cells as {m:1}, flagged, depth 0, and no other cell "
+         "lists it; rectangle-less modules become a square of their area around their centre; the allocated area of a module equals the "
+         "area of its shape on the non-fixed cells, is invariant under every C18 cut of the regions, and for ANY exact tiling of the die "
+         "equals shape-intersect-die minus blockages and fixed cells. Tied to create_initial_allocation(Die(text, Netlist(text))) and to "
+         "Allocation(...).initial_allocation(...) on generated die+netlist pairs (exact and float streams), with the exact overlap "
+         "fractions recomputed from the DOCUMENT as the oracle.",
+    note="The die decomposition and the readers are inputs here (C01/C04); FixedOK / tiling hypotheses are C01/C02's conclusions and are "
+         "re-checked on every generated document; sqrt a parameter; CPython's Neumaier sum() modelled (pySum) and bit-checked; rounding "
+         "executed, not proved; at least one refinable region; code repaired first (fix: ratio above 1 by rounding).",
+    technique="Lean 4 proof over ordered fields (induction on cuts and tilings) + Rat/Float model correspondence on two entry points + exact-Fraction document oracle",
+    design="§7 C03")
+
 NOT_APPLICABLE = {}
 
 def main():
